@@ -104,7 +104,57 @@ fn check_item(it: &Item, log: &stone::ProverLog) -> (Outcome, u64) {
     (Outcome::pass(class, true, f), n)
 }
 
+/// traces_commit phase for every layout: bump the original commitment => every interaction element and
+/// the final digest change; bump the interaction commitment => interaction elements unchanged, digest changed.
+fn traces_phase(ctx: &Ctx, rep: &mut Report) {
+    use swiftness_air::trace;
+    use swiftness_commitment::{table::config::Config as TConfig, vector::config::Config as VConfig};
+    for (li, l) in crate::layouts::NAMES.iter().enumerate() {
+        for k in 0..ctx.n(8, 64) {
+            let seed = mix(ctx.seed, (li as u64) << 32 | k);
+            let d0 = prf_felt(seed, 0);
+            let vc = VConfig { height: Felt::from(10u64), n_verifier_friendly_commitment_layers: Felt::ZERO };
+            let cfg = trace::config::Config { original: TConfig { n_columns: Felt::ONE, vector: vc.clone() }, interaction: TConfig { n_columns: Felt::ONE, vector: vc } };
+            let run = |o: Felt, i: Felt| -> (Vec<Felt>, Felt, Felt) {
+                with_layout!(*l, L, {
+                    let mut t = Transcript::new(d0);
+                    let c = <L as LayoutTrait>::traces_commit(&mut t, &trace::UnsentCommitment { original: o, interaction: i }, cfg.clone());
+                    (flatten_interaction(&c.interaction_elements), *t.digest(), *t.counter())
+                })
+            };
+            let (o, i) = (prf_felt(seed, 1), prf_felt(seed, 2));
+            let r = guarded(false, || (run(o, i), run(o + Felt::ONE, i), run(o, i + Felt::ONE)));
+            let f = fp(&(l, k));
+            let class = format!("phase/traces_commit/{}", l);
+            let out = match r {
+                Err(pn) => Outcome::failed(class, f, pn.signature(), pn.describe()),
+                Ok((a, b, c)) => {
+                    let mut distinct = a.0.clone();
+                    distinct.sort();
+                    distinct.dedup();
+                    if a.0.iter().zip(b.0.iter()).any(|(x, y)| x == y) || a.1 == b.1 {
+                        Outcome::failed(class, f, "c08:interaction_elements_ignore_trace_commitment", format!("{}: an interaction element or the digest is unchanged after changing the original trace commitment", l))
+                    } else if a.0 != c.0 {
+                        Outcome::failed(class, f, "c08:interaction_elements_depend_on_later_message", format!("{}: interaction elements changed with the interaction commitment, which is sent after them", l))
+                    } else if a.1 == c.1 || a.2 != Felt::ZERO {
+                        Outcome::failed(class, f, "c08:interaction_commitment_not_absorbed", format!("{}: the interaction commitment does not change the digest / reset the counter", l))
+                    } else if distinct.len() != a.0.len() {
+                        Outcome::failed(class, f, "c08:repeated_challenge", format!("{}: two interaction elements are equal", l))
+                    } else {
+                        Outcome::pass(class, true, f)
+                    }
+                }
+            };
+            rep.record(&out, || json!({"layout": l, "k": k}));
+            if let Some(fl) = &out.fail {
+                rep.fail(ctx, fl, || json!({"label":"c08t","case": {"layout": l, "k": k}}));
+            }
+        }
+    }
+}
+
 pub fn run(ctx: &Ctx, rep: &mut Report) {
+    traces_phase(ctx, rep);
     let its = items(ctx, rep);
     let bh = build_hash();
     let mut compared = 0u64;
